@@ -122,3 +122,39 @@ ENTRY(z_ext_highwater) {
   __verif_observe("bufSize", zi->transitionBufSize);
   __verif_observe("poolSize", ExtendedZoneProcessorTest_setZoneInfo::poolSize());
 }
+
+// C07: local time resolution.  Zone a0, concrete date (year a1, month a2, day a3), time of day symbolic.
+static void localResolution(const TimeZone& tz, long year, long month, long day) {
+  uint8_t hh = __verif_nondet_u8("hour"), mi = __verif_nondet_u8("minute"), ss = __verif_nondet_u8("second");
+  __verif_assume(hh < 24 && mi < 60 && ss < 60);
+  // prime the processor's cache with an earlier instant (300 days before, usually the previous year): the answer
+  // must not depend on it
+  acetime_t prime = (LocalDate::forComponents((int16_t) year, (uint8_t) month, (uint8_t) day).toEpochDays() - 300) * (acetime_t) 86400;
+  tz.getUtcOffset(prime);
+  ZonedDateTime z = ZonedDateTime::forComponents((int16_t) year, (uint8_t) month, (uint8_t) day, hh, mi, ss, tz);
+  __verif_observe("isError", z.isError());
+  __verif_observe("yearTiny", z.yearTiny());
+  __verif_observe("month", z.month());
+  __verif_observe("day", z.day());
+  __verif_observe("hour", z.hour());
+  __verif_observe("minute", z.minute());
+  __verif_observe("second", z.second());
+  __verif_observe("offset", z.timeOffset().toMinutes());
+  acetime_t t = z.toEpochSeconds();
+  __verif_observe("epoch", t);
+  // normalised: rebuilding it from its own epoch seconds gives the same fields and offset
+  ZonedDateTime r = ZonedDateTime::forEpochSeconds(t, tz);
+  __verif_assert(z.isError() || ((r.yearTiny() == z.yearTiny()) & (r.month() == z.month()) & (r.day() == z.day())
+      & (r.hour() == z.hour()) & (r.minute() == z.minute()) & (r.second() == z.second())
+      & (r.timeOffset().toMinutes() == z.timeOffset().toMinutes())), "result is normalised");
+}
+ENTRY(z_ext_local) {
+  ExtendedZoneProcessor proc;
+  TimeZone tz = TimeZone::forZoneInfo(zonedbx::kZoneRegistry[a0], &proc);
+  localResolution(tz, a1, a2, a3);
+}
+ENTRY(z_bas_local) {
+  BasicZoneProcessor proc;
+  TimeZone tz = TimeZone::forZoneInfo(zonedb::kZoneRegistry[a0], &proc);
+  localResolution(tz, a1, a2, a3);
+}
